@@ -48,11 +48,29 @@ def forbidden_constant_ids(tree):
         if isinstance(node, ast.Expr) and isinstance(node.value, ast.Constant):
             exprs.add(id(node.value))
     class_slots = set()
+
+    def class_statements(stmts):
+        """statements that execute in the class namespace: the class body and the blocks of compound statements nested in it"""
+        for st in stmts:
+            yield st
+            if isinstance(st, (ast.FunctionDef, ast.AsyncFunctionDef, ast.ClassDef)):
+                continue
+            for f in ('body', 'orelse', 'finalbody'):
+                yield from class_statements(getattr(st, f, None) or [])
+            for h in getattr(st, 'handlers', None) or []:
+                yield from class_statements(h.body)
+            for c in getattr(st, 'cases', None) or []:
+                yield from class_statements(c.body)
     for node in ast.walk(tree):
         if isinstance(node, ast.ClassDef):
-            for st in node.body:
+            for st in class_statements(node.body):
+                value = None
                 if isinstance(st, ast.Assign) and any(isinstance(t, ast.Name) and t.id == '__slots__' for t in st.targets):
-                    for c in ast.walk(st.value):
+                    value = st.value
+                elif isinstance(st, ast.AnnAssign) and isinstance(st.target, ast.Name) and st.target.id == '__slots__' and st.value is not None:
+                    value = st.value
+                if value is not None:
+                    for c in ast.walk(value):
                         if isinstance(c, ast.Constant):
                             class_slots.add(id(c))
     return class_slots, exprs
